@@ -247,6 +247,44 @@ Proof.
   - intros x Hx. apply Hincl. right; auto.
 Qed.
 
+(* ---------------------------------------------------------------- operators with a sequence operand *)
+Lemma zip_with_length g a b : length b = length a -> length (zip_with g a b) = length a.
+Proof. revert b; induction a; destruct b; simpl; intros; try discriminate; auto. Qed.
+
+Lemma elem_op_length g a b e : elem_op g a b = Some e -> length e = length a.
+Proof.
+  unfold elem_op. destruct (Nat.eqb_spec (length b) (length a)).
+  - intros H; inversion H. apply zip_with_length; auto.
+  - destruct b as [|y [|z b]]; try discriminate. intros H; inversion H. apply map_length.
+Qed.
+
+Lemma op_seq_rows_length g : forall a b r, op_seq_rows g a b = Some r ->
+  length a <= length b -> length r = sum (map (@length Z) a).
+Proof.
+  induction a as [|x a IH]; intros b r H HL; simpl in *.
+  - inversion H; auto.
+  - destruct b as [|y b]; [simpl in HL; lia|].
+    destruct (elem_op g x y) eqn:E1; [|discriminate].
+    destruct (op_seq_rows g a b) eqn:E2; [|discriminate].
+    inversion H; subst. rewrite app_length. rewrite (elem_op_length _ _ _ _ E1).
+    rewrite (IH b l0 E2); simpl in HL; lia.
+Qed.
+
+Lemma stable_op_seq_inplace st0 i g jb : forall dst src st, stable st0 st -> i < length (seqs st0) ->
+  incl dst (pairs (getseq st0 i)) ->
+  stable st0 (fst (op_seq_inplace st (sbuf (getseq st0 i)) g dst jb src)).
+Proof.
+  induction dst as [|(o1, l1) dst IH]; intros src st HS Hi Hincl; simpl; auto.
+  destruct src as [|(o2, l2) src]; simpl; auto.
+  destruct (elem_op g _ _) as [e|] eqn:E; simpl; auto.
+  apply IH; auto.
+  - apply (stable_write st0 st i o1 l1 e HS Hi).
+    + apply Hincl. left; auto.
+    + rewrite (elem_op_length _ _ _ _ E). apply slice_length.
+      apply (stable_in_bounds st0 st i o1 l1); auto. apply Hincl. left; auto.
+  - intros x Hx. apply Hincl. right; auto.
+Qed.
+
 (* ---------------------------------------------------------------- every step keeps the invariant *)
 Lemma is_live_lt st i : is_live st i = true -> i < length (seqs st).
 Proof. unfold is_live. intros H. apply andb_prop in H. destruct H as (H & _). apply Nat.ltb_lt; auto. Qed.
@@ -288,6 +326,8 @@ Arguments set_seq : simpl never.
 Arguments map_elems : simpl never.
 Arguments assign_seq : simpl never.
 Arguments assign_rows : simpl never.
+Arguments op_seq_inplace : simpl never.
+Arguments op_seq_rows : simpl never.
 Arguments fill_buf : simpl never.
 Arguments write_buf : simpl never.
 Arguments new_view : simpl never.
@@ -381,6 +421,43 @@ Proof.
     apply wf_set_seq; simpl; auto.
     + intros Hv. destruct (wf_chain st i W L Hv). exists [], []. rewrite !app_nil_r. auto.
     + destruct (wf_seq _ W i L) as (_ & _ & S3). destruct (scache (getseq st i)); auto.
+  - (* OOpSeq *)
+    destruct (is_live st i && is_live st j) eqn:L; simpl; auto.
+    apply andb_prop in L. destruct L as (L & Lj). apply is_live_lt in L. apply is_live_lt in Lj.
+    destruct (Nat.eqb_spec (length (lens (getseq st i))) (length (lens (getseq st j)))) as [EL|]; simpl; auto.
+    destruct (negb _); simpl; auto.
+    destruct (offs (getseq st i)) as [|o0 os0] eqn:EO; [simpl; auto|]. rewrite <- EO.
+    destruct inplace.
+    + pose proof (stable_op_seq_inplace st i (apply_fn2 g) (sbuf (getseq st j)) _
+                    (combine (offs (getseq st j)) (lens (getseq st j))) st (stable_refl st W) L (incl_refl _)) as (W1 & _).
+      destruct (op_seq_inplace _ _ _ _ _ _) as [st1 [e|]]; simpl in *; auto.
+    + destruct (op_seq_rows _ _ _) as [r|] eqn:ER; simpl; auto.
+      assert (LR0 : length r = sum (lens (getseq st i))).
+      { rewrite (op_seq_rows_length _ _ _ _ ER).
+        - rewrite contents_lengths; auto.
+        - unfold contents, elems_of. rewrite !map_length, !combine_length.
+          destruct (wf_seq _ W i L) as (_ & A & _). destruct (wf_seq _ W j Lj) as (_ & B & _). lia. }
+      destruct (do_copy_spec st i W L) as (W1 & K1 & L1 & G1 & C1 & R1).
+      set (st1 := do_copy st i) in *. set (k := length (seqs st)) in *.
+      assert (Hk : k < length (seqs st1)) by lia.
+      assert (LR : length (rows (getbuf (heap st1) (sbuf (getseq st1 k)))) = sum (lens (getseq st i))).
+      { rewrite G1. cbn [sbuf]. change (rows (getbuf (heap st1) (length (heap st)))) with (rows_of st1 (length (heap st))).
+        rewrite R1, concat_length_sum, contents_lengths; auto. }
+      assert (HB : sbuf (getseq st1 k) < length (heap st1)) by apply (wf_seq _ W1 k Hk).
+      pose proof (wf_heap _ W1 _ HB) as HC. unfold rows_of in HC.
+      assert (VE : cend 0 (offs (getseq st1 k)) (lens (getseq st1 k)) = sum (lens (getseq st i))).
+      { rewrite G1. cbn [offs lens]. rewrite cend_cum. lia. }
+      destruct dtchg.
+      * assert (W2 : wf (new_buf_for st1 k (getbuf (heap st1) (sbuf (getseq st1 k))))).
+        { apply wf_new_buf_for; auto; rewrite ?G1; cbn [is_view scache]; auto. rewrite <- G1. lia. }
+        set (st2 := new_buf_for st1 k _) in *.
+        assert (G2 : sbuf (getseq st2 k) = length (heap st1)).
+        { unfold st2. rewrite getseq_new_buf_for, Nat.eqb_refl by auto. reflexivity. }
+        rewrite G2. apply wf_set_buf_ge; auto.
+        -- unfold st2, new_buf_for; cbn [heap]. rewrite app_length; cbn [length]; lia.
+        -- cbn [rows cap]. rewrite LR0, <- LR. exact HC.
+        -- cbn [rows]. unfold st2. rewrite rows_of_new_buf_for. rewrite LR0, <- LR. apply le_n.
+      * apply wf_set_buf_ge; auto; cbn [rows cap]; rewrite LR0, <- LR; [exact HC|apply le_n].
 Qed.
 
 Theorem wf_exec ops : forall st, wf st -> wf (exec st ops).
